@@ -93,7 +93,10 @@ def body(ctx, shape):
             ctx.assume(ctx.any(*[first == ord(ch) for ch in cls]))
     calls = []
     stack = []
-    names = ["_unpack_filter", "_unpack_complex_filter", "_unpack_simple_filter"]
+    # the recursive-descent functions of the current tree (a refactor that removes or renames them
+    # leaves fewer hooks: the structural obligations then cover what is still there, and the run
+    # still shows that from_string comes back on every path)
+    names = [k for k in ("_unpack_filter", "_unpack_complex_filter", "_unpack_simple_filter") if callable(getattr(F, k, None))]
     orig = {k: getattr(F, k) for k in names}
 
     def wrap(name, fn):
